@@ -70,6 +70,8 @@ func runC12(c *Ctx) {
 	c.Rule("C12.O10", "E4,E6", "the TLS drain loop of a WebSocket connection handed to the poller reads the decrypted stream to exhaustion: draining stops only on a zero count (one socket read can carry several TLS records, i.e. several frames)", 1)
 	c.Rule("C12.O11", "E4", "permessage-deflate is negotiated only under the option that the frame validator uses to accept RSV1: the client's offer (the Sec-Websocket-Extensions request field) and the server's acceptance (compress = true) are dominated by enableCompression being set", 2)
 	c12NegotiationFlag(c)
+	c.Rule("C12.O12", "E4", "a compressed message that inflates to exactly the limit is delivered: readAll refuses on its len+1 test only after a further read delivered a byte", 1)
+	c12ExactLimitInflates(c)
 	c10TLSDrain(c, "C12.O10", "websocket")
 	c11NoFrontReslice(c, "C12.O9")
 	c12ResetScope(c)
